@@ -19,7 +19,7 @@ CLASSES = [
     "list_before_close", # own line before "]"
     "rec_open", "rec_after_comma", "rec_item_eol", "rec_before_close",
     "do_open",           # after "do {"
-    "do_stmt_eol",       # directly after a do-block statement (no blank allowed by the grammar)
+    "do_stmt_eol",       # after a do-block statement on the same line (blanks allowed since b1bc7c1)
     "do_between",        # own line between do-block statements
     "do_before_return",  # own line before return
     "swallow_infix",     # inside a multi-line binary expression (consumed by NEWLINE) -- F20
@@ -462,7 +462,7 @@ class FmtGen:
                 st = self.call(d - 1, sub)
             out += st
             if self.want() and r.chance(1, 2):
-                out += self.comment("do_stmt_eol", ctx)          # no blank: the grammar admits none
+                out += self.ws() + self.comment("do_stmt_eol", ctx)
                 self.case.do_trailing = True
                 out += "\n" + self.ind()
             elif r.chance(1, 5):
